@@ -1,0 +1,81 @@
+//! Outgoing-datagram interception (hook H2).
+//!
+//! * thread-local capture: used by the single-threaded rigs; everything the
+//!   current thread would send is recorded instead of being sent.
+//! * global policy: used with whole DomainParticipants; a callback decides per
+//!   datagram whether it is dropped.
+
+use std::{
+  cell::RefCell,
+  sync::{Arc, RwLock},
+};
+
+use crate::structure::locator::Locator;
+
+#[derive(Clone, Debug)]
+pub struct Sent {
+  pub dest: String,
+  pub bytes: Vec<u8>,
+}
+
+thread_local! {
+  static CAPTURE: RefCell<Option<Vec<Sent>>> = const { RefCell::new(None) };
+}
+
+/// true = drop this datagram
+pub type Policy = Arc<dyn Fn(&[u8], &str) -> bool + Send + Sync>;
+
+static GLOBAL: RwLock<Option<Policy>> = RwLock::new(None);
+
+pub fn capture_begin() {
+  CAPTURE.with(|c| {
+    let mut c = c.borrow_mut();
+    if c.is_none() {
+      *c = Some(Vec::new());
+    }
+  });
+}
+
+pub fn capture_end() {
+  CAPTURE.with(|c| *c.borrow_mut() = None);
+}
+
+pub fn capture_take() -> Vec<Sent> {
+  CAPTURE.with(|c| c.borrow_mut().as_mut().map(std::mem::take).unwrap_or_default())
+}
+
+pub fn set_global_policy(p: Option<Policy>) {
+  *GLOBAL.write().unwrap() = p;
+}
+
+pub fn locator_string(l: &Locator) -> String {
+  match l {
+    Locator::UdpV4(a) => format!("{a}"),
+    Locator::UdpV6(a) => format!("{a}"),
+    other => format!("{other:?}"),
+  }
+}
+
+/// Called first thing in `UDPSender::send_to_locator`. Returns true if the
+/// datagram was consumed here and must not go to the socket.
+pub(crate) fn intercept(buffer: &[u8], locator: &Locator) -> bool {
+  let captured = CAPTURE.with(|c| {
+    if let Some(v) = c.borrow_mut().as_mut() {
+      v.push(Sent {
+        dest: locator_string(locator),
+        bytes: buffer.to_vec(),
+      });
+      true
+    } else {
+      false
+    }
+  });
+  if captured {
+    return true;
+  }
+  let pol = GLOBAL.read().unwrap().clone();
+  match pol {
+    Some(p) => p(buffer, &locator_string(locator)),
+    None => false,
+  }
+}
